@@ -489,6 +489,22 @@ func (fc *FuncCtx) contractCall(fr *Frame, st *State, com *ssa.CallCommon, key s
 	cshort := shortFuncName(key)
 	fc.callCount[cshort]++
 	ord := fc.callCount[cshort]
+	// lemma instances requested by the caller's contract for this call site
+	var patKeys []string
+	for pat := range fc.spec.CallReq {
+		patKeys = append(patKeys, pat)
+	}
+	sortStrings(patKeys)
+	for _, pat := range patKeys {
+		if !matchCallPattern(pat, cshort, ord) {
+			continue
+		}
+		for _, cl := range fc.spec.CallReq[pat] {
+			if cl.Where == "use" {
+				fc.applyUse(st, env, cl)
+			}
+		}
+	}
 	// callee preconditions
 	calleeEnv := &Env{v: v, vars: env.vars, lets: map[string]string{}, st: st, old: st}
 	for _, l := range spec.Lets {
@@ -514,11 +530,15 @@ func (fc *FuncCtx) contractCall(fr *Frame, st *State, com *ssa.CallCommon, key s
 		st.assume(c, t)
 	}
 	// call-site clauses of the caller's own contract
-	for pat, cls := range fc.spec.CallReq {
+	for _, pat := range patKeys {
+		cls := fc.spec.CallReq[pat]
 		if !matchCallPattern(pat, cshort, ord) {
 			continue
 		}
 		for i, cl := range cls {
+			if cl.Where == "use" {
+				continue
+			}
 			t, err := env.EvalBool(cl.E)
 			if err != nil {
 				panic(specError{fmt.Sprintf("call clause %s (line %d): %v", pat, cl.Line, err)})
@@ -655,6 +675,11 @@ func (fc *FuncCtx) contractCall(fr *Frame, st *State, com *ssa.CallCommon, key s
 	for _, b := range borrows {
 		b(st)
 	}
+	var rsv []SV
+	for _, r := range results {
+		rsv = append(rsv, SV{T: r.T, GoT: r.GoT})
+	}
+	fc.callResults[fmt.Sprintf("%s#%d", cshort, ord)] = rsv
 	switch len(results) {
 	case 0:
 		return Val{}
